@@ -604,4 +604,45 @@ theorem object_refused_set (inv : M6 K → Option (M6 K)) (st : M6 K) (op : Op K
     run inv st (op :: ops) = .error e :: run inv st ops ∧ finalState inv st (op :: ops) = finalState inv st ops := by
   simp only [run, finalState, step, he, and_self]
 
+/-- **end to end**: `ElasticConstants(C11=, C12=, C44=).bulk(style)` is `(C11 + 2 C12)/3` for all three styles,
+    whatever routine computes the compliance, as long as it returns a right inverse of the stored matrix. -/
+theorem cubic_bulk_every_style (c11 c12 c44 : K) (h1 : c11 - c12 ≠ 0) (h2 : c11 + 2 * c12 ≠ 0) (h4 : c44 ≠ 0)
+    (h3 : 4 * c44 + 3 * (c11 - c12) ≠ 0)
+    (inv : M6 K → Option (M6 K)) (s : M6 K) (hinv : inv (m6 (ctor_C11_C12_C44 c11 c12 c44)) = some s)
+    (hs : ∀ a d, ∑ b, m6 (ctor_C11_C12_C44 c11 c12 c44) a b * s b d = if a = d then 1 else 0) :
+    ∀ style ∈ ["Voigt", "Reuss", "Hill"],
+      estimate inv "bulk" style (m6 (ctor_C11_C12_C44 c11 c12 c44)) = .ok ((c11 + 2 * c12) / 3) := by
+  have e := cubic_compliance_unique c11 c12 c44 h1 h2 h4 s hs
+  subst e
+  obtain ⟨hV, hR, hH, _, _⟩ := cubic_moduli c11 c12 c44 h1 h2 h4 h3
+  intro style hst
+  simp only [List.mem_cons, List.not_mem_nil, or_false] at hst
+  rcases hst with rfl | rfl | rfl
+  · simp [estimate, hV]
+  · simp [estimate, hinv, tab6_eq, hR]
+  · simp [estimate, hinv, tab6_eq, hH]
+
+/-- the same for the shear estimates: Voigt `(C11 - C12 + 3 C44)/5`, Reuss `5 C44 (C11 - C12)/(4 C44 + 3 (C11 - C12))`,
+    Hill their mean. -/
+theorem cubic_shear_every_style (c11 c12 c44 : K) (h1 : c11 - c12 ≠ 0) (h2 : c11 + 2 * c12 ≠ 0) (h4 : c44 ≠ 0)
+    (h3 : 4 * c44 + 3 * (c11 - c12) ≠ 0)
+    (inv : M6 K → Option (M6 K)) (s : M6 K) (hinv : inv (m6 (ctor_C11_C12_C44 c11 c12 c44)) = some s)
+    (hs : ∀ a d, ∑ b, m6 (ctor_C11_C12_C44 c11 c12 c44) a b * s b d = if a = d then 1 else 0) :
+    let c := m6 (ctor_C11_C12_C44 c11 c12 c44)
+    let gV := (c11 - c12 + 3 * c44) / 5
+    let gR := 5 * c44 * (c11 - c12) / (4 * c44 + 3 * (c11 - c12))
+    estimate inv "shear" "Voigt" c = .ok gV ∧ estimate inv "shear" "Reuss" c = .ok gR ∧
+    estimate inv "shear" "Hill" c = .ok ((gV + gR) / 2) := by
+  have e := cubic_compliance_unique c11 c12 c44 h1 h2 h4 s hs
+  subst e
+  obtain ⟨_, _, _, hV, hR⟩ := cubic_moduli c11 c12 c44 h1 h2 h4 h3
+  refine ⟨?_, ?_, ?_⟩
+  · simp [estimate, hV]
+  · simp [estimate, hinv, tab6_eq, hR]
+  · simp [estimate, hinv, tab6_eq, shearHill, hV, hR]
+
+/-- non-vacuity: `C11 = 3, C12 = 1, C44 = 2` with the closed-form compliance as `inv`. -/
+example : ∃ s : M6 ℚ, ∀ a d, ∑ b, m6 (ctor_C11_C12_C44 (3 : ℚ) 1 2) a b * s b d = if a = d then 1 else 0 :=
+  ⟨cubicS 3 1 2, cubic_mul_cubicS 3 1 2 (by norm_num) (by norm_num) (by norm_num)⟩
+
 end Atomman.C11
